@@ -32,6 +32,11 @@ func init() {
 		checkPegCombinators(r, prog, "c15")
 		r.importing = "C10"
 		checkRecoverDiscipline(r, prog, "c10")
+		if a20 := FindAnchors(prog); len(a20.Missing) == 0 {
+			// … and it follows the table as far as the table goes: no budget of the engine's own making cuts a derivation short
+			r.importing = "C11"
+			checkBudget(r, prog, a20, "c11")
+		}
 		r.importing = ""
 	})
 	register("C15", true, func(r *Run, prog *Program) {
@@ -55,6 +60,7 @@ func init() {
 		checkPegCombinators(r, prog, "c15")
 		checkBinaryActions(r, ga, "c15")
 		checkActionsDoNotRewrite(r, prog, "c15")
+		checkActionErrors(r, prog, "c15")
 		// (c) the actions build the prescribed nodes: selector path parts, operator constants, literal text
 		r.importing = "C07"
 		checkSelectorGrammar(r, ga, "c07")
@@ -70,6 +76,8 @@ func init() {
 			checkCreateEvaluator(r, prog, a15, ga, "c10") // CreateEvaluator accepts exactly what the parser accepts: it parses the text it is given, unmodified
 			r.importing = "C18"
 			checkGetOpts(r, prog, a15, "c18") // … and with no budget unless one is asked for
+			r.importing = "C11"
+			checkBudget(r, prog, a15, "c11") // … neither in the engine: without the option the parser runs for as long as the derivation takes
 		}
 		r.importing = "C10"
 		checkRecoverDiscipline(r, prog, "c10") // an error recorded during the parse (an action's, an invalid encoding) rejects the input: every return of parse hands out the recorded errors
@@ -90,6 +98,9 @@ func init() {
 		checkLiteralFidelity(r, ga)
 		checkKeywordBoundary(r, ga, "c16")
 		checkWhitespaceRule(r, ga)
+		r.importing = "C15"
+		checkActionErrors(r, prog, "c15") // what was printed is read back: no action refuses, of its own accord, a construct the grammar produces
+		r.importing = ""
 		r.importing = "C19"
 		checkSelectorString(r, prog, "c19") // a bare value's text is Selector.String(): dotted join of the parts
 		r.importing = "C15"
@@ -104,6 +115,8 @@ func init() {
 			checkASTIntegrity(r, prog, a16, "c13") // and the tree evaluated is the tree parsed: literals are not rewritten afterwards
 			r.importing = "C18"
 			checkGetOpts(r, prog, a16, "c18") // a rendering of any length is read back: no budget unless one is asked for
+			r.importing = "C11"
+			checkBudget(r, prog, a16, "c11")
 			r.importing = "C03"
 			checkConnectives(r, prog, a16, "c03") // the grouping that was parsed is the grouping that is evaluated: every node with its own operator
 			r.importing = "C02"
@@ -1264,6 +1277,11 @@ func checkLiteralFidelity(r *Run, ga *GA) {
 				ok = len(ts) == 1 && ts[0] == "string"
 				why = fmt.Sprintf("Raw is label %s whose value has dynamic types %v", lbl, ts)
 				x := ln.Kids[0]
+				if x.Kind == peg.RuleRef && !strRules[x.Name] && ga.prog.SSA != nil {
+					// a literal that is not a quoted string (a number) is its own text: the rule's actions hand out the
+					// matched bytes as they stand
+					checkMatchedTextActions(r, ga.prog, x.Name)
+				}
 				if x.Kind == peg.RuleRef && strRules[x.Name] {
 					strAlt = s.action
 				}
@@ -1698,4 +1716,34 @@ func entrypointIsFirstRuleSSA(prog *Program) bool {
 		ok = true
 	}
 	return ok
+}
+
+// checkMatchedTextActions: every value action of the named rule returns, whenever it returns without an error, exactly
+// string(c.text) — the text that was matched, nothing trimmed, normalised or re-rendered.
+func checkMatchedTextActions(r *Run, prog *Program, rule string) {
+	n := 0
+	for _, fn := range prog.ModuleFuncs() {
+		if fn.Pkg != prog.GrammarSSA || !prog.isActionFunc(fn) || fn.Signature.Recv() == nil || !namedIs(fn.Signature.Recv().Type(), grammarPath, "current") {
+			continue
+		}
+		nm := fn.Name()
+		if !strings.HasPrefix(nm, "on"+rule) || strings.Trim(nm[len("on"+rule):], "0123456789") != "" || len(nm) == len("on"+rule) {
+			continue
+		}
+		if res := fn.Signature.Results(); res.Len() != 2 || isBool(res.At(0).Type()) {
+			continue
+		}
+		n++
+		want := (&Sym{K: sLoad, A: &Sym{K: sFieldAddr, A: paramSym(fn.Params[0]), Str: "text"}}).Key()
+		ps := NewPathSim(prog)
+		for _, sm := range ps.Run(fn) {
+			if sm.Ret == nil || len(sm.Results) != 2 || errClass(sm, sm.Results[1]) == "nonnil" {
+				continue
+			}
+			v := sm.Results[0]
+			ok := v.K == sMkIface && v.A != nil && v.A.K == sConvert && v.A.A != nil && v.A.A.Key() == want
+			r.Check("c16.value-raw", "matched-text:"+nm, prog.pos(sm.Ret.Pos()), ok, "the literal produced by "+nm+" is not the matched text string(c.text) itself but "+shortKey(v)+": the tree does not hold what was written")
+		}
+	}
+	r.Check("c16.value-raw", "matched-text:"+rule+":census", "grammar/grammar.go", n >= 1, "no value action found for rule "+rule)
 }
